@@ -49,8 +49,10 @@ Definition check_lin (k : case_lin) : bool :=
 
 (* kaczmarz: blocks (M_i, Mt_i, b_i, omega_i) *)
 Record kblock := { kb_M : mat; kb_Mt : mat; kb_b : vec; kb_omega : Q }.
+(* kz_orders: None = sequential (random=False); Some os = the permutations drawn by
+   np.random.permutation (seed fixed by the harness), one per outer iteration *)
 Record case_kz := { kz_blocks : list kblock; kz_x0 : vec; kz_niter : nat; kz_inner : bool;
-                    kz_trace : list vec }.
+                    kz_orders : option (list (list nat)); kz_trace : list vec }.
 Definition kstep (b : kblock) : vec -> vec :=
   lw_step vec vec addQ scalQ addQ scalQ (lA (kb_M b)) (lA (kb_Mt b)) (kb_omega b) (kb_b b).
 (* callback_loop='inner': one callback after every block step *)
@@ -64,10 +66,30 @@ Fixpoint kz_inner_run (steps : list (vec -> vec)) (n : nat) (x : vec) : list vec
   | O => []
   | S n' => let '(tr, xf) := inner_trace steps x in tr ++ kz_inner_run steps n' xf
   end.
+Fixpoint inner_trace_order (steps : list (vec -> vec)) (order : list nat) (x : vec) : list vec * vec :=
+  match order with
+  | [] => ([], x)
+  | i :: order' => let x' := nth i steps (fun y => y) x in
+                   let '(tr, xf) := inner_trace_order steps order' x' in (x' :: tr, xf)
+  end.
+Fixpoint kz_inner_orders (steps : list (vec -> vec)) (orders : list (list nat)) (x : vec) : list vec :=
+  match orders with
+  | [] => []
+  | o :: orders' => let '(tr, xf) := inner_trace_order steps o x in tr ++ kz_inner_orders steps orders' xf
+  end.
+Definition is_perm_of (n : nat) (o : list nat) : bool :=
+  Nat.eqb (length o) n && forallb (fun i => existsb (Nat.eqb i) o) (seq 0 n).
 Definition check_kz (k : case_kz) : bool :=
   let steps := map kstep (kz_blocks k) in
+  match kz_orders k with
+  | Some os =>
+      Nat.eqb (length os) (kz_niter k) && forallb (is_perm_of (length steps)) os &&
+      (if kz_inner k then vsclose (kz_trace k) (kz_inner_orders steps os (kz_x0 k))
+       else vsclose (kz_trace k) (kz_run_orders vec steps os (kz_x0 k)))
+  | None =>
   if kz_inner k then vsclose (kz_trace k) (kz_inner_run steps (kz_niter k) (kz_x0 k))
-  else vsclose (kz_trace k) (trace (kz_sweep vec steps) (kz_niter k) (kz_x0 k)).
+  else vsclose (kz_trace k) (trace (kz_sweep vec steps) (kz_niter k) (kz_x0 k))
+  end.
 
 (* power method: [pm_iters] iterations were executed, [pm_est] was returned,
    [pm_xs] are the callback vectors (normalised iterates x_1, x_2, ...) *)
